@@ -485,10 +485,17 @@ func (m *Encoder) encodeWithAnnotation(v reflect.Value, fields []field) error {
 			if err != nil {
 				return err
 			}
-			listOfAnnotations, ok := annotations.Interface().([]SymbolToken)
-			if !ok {
+			var listOfAnnotations []SymbolToken
+			switch a := annotations.Interface().(type) {
+			case []SymbolToken:
+				listOfAnnotations = a
+			case []string:
+				for _, text := range a {
+					listOfAnnotations = append(listOfAnnotations, NewSymbolTokenFromString(text))
+				}
+			default:
 				return fmt.Errorf("ion: '%v' is provided for annotations, "+
-					"it must be of type []SymbolToken", annotations.Kind())
+					"it must be of type []SymbolToken or []string", annotations.Type().String())
 			}
 			err = m.w.Annotations(listOfAnnotations...)
 			if err != nil {
